@@ -190,7 +190,9 @@ func runC08(w *W) {
 	// pools
 	r := w.rng("c08")
 	valid := []string{`{}`, `[]`, `{"a":1}`, `[1,2,3]`, `{"k":"v","n":[true,false,null]}`, `[{"x":{"y":[]}}]`, `{"s":"line\nbreak \"q\" \\ "}`, `["\\"]`, `["a\\"]`, `{"e":"\\\\"}`, `[1.5e3,-0,18446744073709551615]`, ` {"sp" : 1 } `, "\t[\t1\t]\t"}
-	invalid := []string{`{`, `}`, `[1,]`, `{"a"}`, `{"a":1}{"b":2}`, `{"a":1} {"b":2}`, `[1] [2]`, `1`, `"s"`, `nul`, `[tru]`, `{"a":01}`, `["\x"]`, `[1`, `1]`, `{"a":`, `1}`, `[`, `]`, `,`, `{"a":1},`, `[1]x`, `x[1]`, `["a` + "\x01" + `"]`}
+	invalid := []string{`{`, `}`, `[1,]`, `{"a"}`, `{"a":1}{"b":2}`, `{"a":1} {"b":2}`, `[1] [2]`, `1`, `"s"`, `nul`, `[tru]`, `{"a":01}`, `["\x"]`, `[1`, `1]`, `{"a":`, `1}`, `[`, `]`, `,`, `{"a":1},`, `[1]x`, `x[1]`, `["a` + "\x01" + `"]`,
+		// one outer scope left open although the line ends in a closer
+		`[[1]`, `[{"a":1}`, `{"k":[1,2]`, `{"a":{"b":1}`, `[[]`, `{"a":[]`, `[1]]`, `{"a":1}}`}
 	blanks := []string{``, ` `, "\t", "\r", "  \t ", " \r"}
 	for k := 0; k < 40; k++ {
 		rr := r.Split()
@@ -264,6 +266,29 @@ func runC08(w *W) {
 		head := `{"a":1}` + "\n"
 		tail := "\n" + `{"z":[true]}`
 		judge("threshold-8k", []byte(head+`{"pad":"`+strings.Repeat("x", target-len(head)-len(tail)-10)+`"}`+tail))
+	}
+	// every kind of bad line at the first / middle / last position of inputs on both sides of 8 KiB
+	for _, good := range []int{3, 300, 1200} {
+		for bi, badLine := range invalid {
+			for pos := 0; pos < 3; pos++ {
+				if !th && (bi+pos+good)%2 != 0 && good != 1200 {
+					continue
+				}
+				var b bytes.Buffer
+				at := []int{0, good / 2, good}[pos]
+				for l := 0; l <= good; l++ {
+					if l == at {
+						b.WriteString(badLine)
+					} else {
+						b.WriteString(valid[(l*7+bi)%13])
+					}
+					if l < good || (bi+pos)%2 == 0 {
+						b.WriteString("\n")
+					}
+				}
+				judge("bad-line-position", b.Bytes())
+			}
+		}
 	}
 	// many lines
 	counts := []int{1000, 5000}
